@@ -140,10 +140,16 @@ static inline void C04_escape_key(vstr* out, const vstr* key, int mode)
 }
 #else
 extern vstr g_keys[2];
-extern char g_keybuf[2][16];
+extern char g_keybuf[2][4];
 #define C04_KEY_OF(self, i) (&g_keys[(i) & 1])
-#define C04_LOCAL_STRING(name) char name##_buf[16]; vstr name; name.data = name##_buf; name.cap = 16; name.size = 0
-#define C04_escape_key(out, key, mode) do { g_args_ok = g_args_ok && (mode) == g_mode; JSON_escape_string(out, key, mode); } while (0)
+#define C04_LOCAL_STRING(name) char name##_buf[4]; vstr name; name.data = name##_buf; name.cap = 4; name.size = 0
+/* keys of the bounded run are made of characters that every escape mode leaves alone (the escaping itself is pieces 1 and 2) */
+static inline void C04_escape_key(vstr* out, const vstr* key, int mode)
+{
+  g_args_ok = g_args_ok && mode == g_mode;
+  out->size = 0;
+  for (size_t j = 0; j < key->size; j++) { out->data[j] = key->data[j]; out->size++; }
+}
 #endif
 
 #endif
